@@ -570,7 +570,7 @@ class Root:
     """A traced origin of a value.  `fields` is the access path from the root (names, in access
     order), `owners` the ADT owning each field ("" when unknown)."""
 
-    __slots__ = ("kind", "bb", "what", "fields", "owners", "obj", "body")
+    __slots__ = ("kind", "bb", "what", "fields", "owners", "obj", "body", "ctx")
 
     def __init__(self, kind, bb, what, path=(), obj=None, body=None):
         self.kind = kind  # param | call | const | agg | upvar | unknown | binop | via
@@ -580,6 +580,7 @@ class Root:
         self.owners = tuple(p[1] for p in path)
         self.obj = obj
         self.body = body
+        self.ctx = None  # (caller body id, call terminator) when the root was found inside a callee while following ITS return for that call
 
     @property
     def path(self):
@@ -725,7 +726,7 @@ def roots(body, op_or_place, **kw):
     return [r for r in trace(body, op_or_place, **kw) if r.kind != "via"]
 
 
-def xtrace(facts, body, op_or_place, depth=4, deep=False, _seen=None, follow_returns=True, path0=()):
+def xtrace(facts, body, op_or_place, depth=4, deep=False, _seen=None, follow_returns=True, path0=(), _raw_params=False):
     """inter-procedural trace: `upvar` roots are resolved in the parent body at the closure's creation,
     `param` roots at every call site of the function (when it has callers in the facts)."""
     if _seen is None:
@@ -754,6 +755,10 @@ def xtrace(facts, body, op_or_place, depth=4, deep=False, _seen=None, follow_ret
             if not hit:
                 res.append(r)
         elif r.kind == "param" and body.kind != "Closure":
+            if _raw_params:
+                # evaluated on behalf of one particular call site, which binds the parameter to its own argument
+                res.append(r)
+                continue
             callers = [c for c in facts.callers().get(body.id, []) if c[2] in ("call", "candidate")]
             if not callers:
                 res.append(r)
@@ -773,16 +778,26 @@ def xtrace(facts, body, op_or_place, depth=4, deep=False, _seen=None, follow_ret
                     res.append(rr)
         elif r.kind == "call" and r.what in facts.bodies and follow_returns and facts.bodies[r.what].kind != "Closure":
             cal = facts.bodies[r.what]
-            key = ("ret", r.what, r.fields)
+            key = ("ret", body.id, r.bb, r.what, r.fields)
             if key in _seen:
                 res.append(r)
                 continue
             _seen.add(key)
             res.append(r)
-            sub = xtrace(facts, cal, {"l": 0}, depth - 1, deep, _seen, follow_returns, r.path)
+            sub = xtrace(facts, cal, {"l": 0}, depth - 1, deep, _seen, follow_returns, r.path, _raw_params=True)
             for rr in sub:
                 if rr.kind in ("param",) and rr.body == cal.id:
-                    continue  # would need argument binding; not followed
+                    # the returned value is (part of) a parameter of the callee: bind it to the argument of THIS call
+                    t = r.obj
+                    ai = rr.what - 1
+                    if isinstance(t, dict) and t.get("k") == "call" and 0 <= ai < len(t["args"]):
+                        bkey = ("bind", body.id, r.bb, ai, rr.fields)
+                        if bkey not in _seen:
+                            _seen.add(bkey)
+                            res.extend(xtrace(facts, body, t["args"][ai], depth - 1, deep, _seen, follow_returns, rr.path))
+                    continue
+                if rr.body == cal.id and rr.ctx is None:
+                    rr.ctx = (body.id, r.obj)
                 res.append(rr)
         else:
             res.append(r)
